@@ -100,8 +100,18 @@ def stmt_kills(ctx, st, tok_fields):
     """Set of killed state items for one top-level statement of solve():
     'tokens.*' (all Tokens state) or 'tokens.<f>' or '<attr>' of the solver itself."""
     out = set()
+    if isinstance(st, ast.Assign) and len(st.targets) == 1 and isinstance(st.targets[0], ast.Tuple) and isinstance(st.value, ast.Tuple) \
+            and len(st.targets[0].elts) == len(st.value.elts):
+        # parallel assignment: each pair on its own
+        for t, v in zip(st.targets[0].elts, st.value.elts):
+            one = ast.Assign(targets=[t], value=v)
+            one._locals = getattr(st, "_locals", {})
+            out |= stmt_kills(ctx, one, tok_fields)
+        return out
     if isinstance(st, ast.Assign) and len(st.targets) == 1:
         d = dotted_name(st.targets[0])
+        if isinstance(st.value, ast.Name) and st.value.id in getattr(st, "_locals", {}):
+            st = ast.Assign(targets=st.targets, value=st._locals[st.value.id])      # a local that holds a fresh object
         v = norm(st.value)
         if d == "self.tokens" and isinstance(st.value, ast.Call) and dotted_name(st.value.func) == "Tokens":
             out.add("tokens.*")
@@ -136,6 +146,8 @@ def uses_token_state(node):
             if isinstance(p, ast.Attribute) and p.attr == "atom":
                 continue
             if isinstance(p, ast.Assign) and n in p.targets:
+                continue
+            if isinstance(p, ast.Tuple) and isinstance(p.ctx, ast.Store):
                 continue
             return True
     return False
@@ -172,6 +184,12 @@ def r1_kill_before_use(ctx):
         return
     killed = set()
     first_use = None
+    local_vals = {}
+    for st in body:
+        # locals bound once at the top level to a constructor call (an alias of a fresh object)
+        if isinstance(st, ast.Assign) and len(st.targets) == 1 and isinstance(st.targets[0], ast.Name) and isinstance(st.value, ast.Call):
+            local_vals[st.targets[0].id] = st.value
+        st._locals = dict(local_vals)
     for st in body:
         # a kill statement may read configuration (self.tokens.atom) only
         k = stmt_kills(ctx, st, tok_fields)
@@ -204,6 +222,7 @@ def r1_kill_before_use(ctx):
             if f in k:
                 # reading inside the assigning statement's value / the branch test is a read of the old value
                 srcs = [st.value] if isinstance(st, ast.Assign) else ([st.test] if isinstance(st, ast.If) else [])
+                srcs = [getattr(st, "_locals", {}).get(x.id, x) if isinstance(x, ast.Name) else x for x in srcs]
                 rv = any(isinstance(n, ast.Attribute) and dotted_name(n) == f"self.{f}" for x in srcs for n in ast.walk(x))
                 if rv:
                     stale = st
